@@ -34,6 +34,10 @@ type SimReader struct {
 	Err        error
 	MaxZeroRun int
 
+	// NegativeCounts (out of 64 per call, 0 = never) makes the reader break
+	// the io.Reader contract by returning a negative count now and then.
+	NegativeCounts int
+
 	Calls   []ReadCall
 	zeroRun int
 	errDone bool
@@ -102,6 +106,11 @@ func (r *SimReader) Read(p []byte) (n int, err error) {
 	}
 	if len(p) == 0 {
 		return 0, nil
+	}
+	if r.NegativeCounts > 0 && r.Tape.Bool(r.NegativeCounts, 64) {
+		r.Stats.Fault("read-negative-count")
+
+		return -1 - r.Tape.Choose(4), nil
 	}
 	if r.ZeroReads && r.zeroRun < r.MaxZeroRun && r.Tape.Bool(1, 4) {
 		r.zeroRun++
